@@ -10,6 +10,8 @@
 (*  "out":  x outside the table: ocv / ocd outcomes of call / derivative   *)
 (*  "root" / "minmax": xl xh (Fix) as given, r returned, oc, tol = the     *)
 (*          object's tolerance (Fix)                                       *)
+(*  "conj": planetary_conjunction / planet_star_conjunction on positions   *)
+(*          whose differences follow polynomials pa (RA) and pd (Dec) in n *)
 (* ymax = max(1, max |y|) (Fix) scales the float-noise allowance.          *)
 (***************************************************************************)
 EXTENDS TraceKit, Interp
@@ -73,7 +75,17 @@ VerdictRoot(isder) ==
           \cup (IF Ev.oc # "ok" THEN {} ELSE Viol("ROOT_INSIDE_INTERVAL", Inside(Ev.r, lo, hi)))
      ELSE {}
 
+\* conjunction helpers: n0 = time (in tabular intervals from the middle entry) at which the
+\* interpolated right-ascension difference vanishes; dd = interpolated declination difference there.
+\* pa / pd = quarter-unit coefficients of the polynomials (in n) the supplied differences follow.
+VerdictConj ==
+  IF Ev.oc # "ok" THEN {"TOTAL"} ELSE
+       Viol("CONJUNCTION_INSIDE_TABLE", Inside(Ev.n0, FromInt(-Ev.half), FromInt(Ev.half)))
+  \cup Viol("CONJUNCTION_RA_DIFFERENCE_ZERO", Le(Abs(PolyEval(Ev.pa, Ev.n0)), Dec(1, 9)))
+  \cup Viol("CONJUNCTION_DEC_DIFFERENCE", Within(Ev.dd, PolyEval(Ev.pd, Ev.n0), Dec(1, 9)))
+
 Verdict ==
+  IF Ev.k = "conj" THEN VerdictConj ELSE
   IF Ev.k \in {"eval", "root", "minmax"} /\ ~(Len(Ev.xq) >= 2 /\ IsAscending(Ev.xq)) THEN {"TABLE_ORDERED"} ELSE
   CASE Ev.k = "tab" -> VerdictTab
     [] Ev.k = "eval" -> VerdictEval
